@@ -1010,16 +1010,18 @@ class HistogramBase(abc.ABC):
             else:
                 adapted_self = self + 0 * other
                 adapted_other = 0 * self + other
+                frequencies = adapted_self.frequencies - adapted_other.frequencies
+                missed = self._missed - other._missed
+                if np.any(frequencies < 0) or np.any(missed < 0):
+                    raise ValueError("Cannot have negative frequencies.")
                 self._coerce_dtype(other.dtype)
-                self.frequencies = (
-                    adapted_self.frequencies - adapted_other.frequencies
-                ).astype(self.dtype)
-                self.errors2 = (adapted_self.errors2 + adapted_other.errors2).astype(
+                # (Adaptive bins may have grown to hold the other operand)
+                self._binnings = adapted_self._binnings
+                self._frequencies = frequencies.astype(self.dtype)
+                self._errors2 = (adapted_self.errors2 + adapted_other.errors2).astype(
                     self.dtype
                 )
-                self._missed = (self._missed - other._missed).astype(
-                    self._missed_dtype(self.dtype)
-                )
+                self._missed = missed.astype(self._missed_dtype(self.dtype))
             self._stats = INVALID_STATISTICS
             return self
         array = np.asarray(other)
